@@ -1,12 +1,13 @@
 import Mp4ff.Model.AvcSps
 import Mp4ff.Lemmas.C15
+import Mp4ff.Props.C15b
 /-!
 # C15 — parameter sets and slice headers parse to the values that were coded
 Property theorems about the bitstream-syntax DSL (`Model/BitSyn.lean`) and the AVC sequence parameter set written in
 it (`Model/AvcSps.lean`, the transcription of avc/sps.go with full VUI/HRD, scaling lists and the parser's count limits); proofs in
 `Mp4ff/Lemmas/C15*.lean` on top of the C13 writer/reader refinement.  The SPS model is tied to `avc.ParseSPSNALUnit`
-by the `avcsps` correspondence op on NAL units produced by the harness's independent serialiser.  PPS, slice headers
-and the HEVC syntaxes are decided by the direct oracle only (see DESIGN.md, "partial").
+by the `avcsps` correspondence op on NAL units produced by the harness's independent serialiser.  AVC PPS and slice header, HEVC SPS, PPS and slice header are modelled in the same DSL
+(`Model/AvcPps.lean`, `AvcSlice.lean`, `HevcSps.lean`, `HevcPps.lean`, `HevcSlice.lean`); their theorems are in `Props/C15b.lean`.
 -/
 namespace Mp4ff.AvcSps.C15
 open Mp4ff.BitSyn Mp4ff.AvcSps Mp4ff.Bits
